@@ -383,26 +383,42 @@ func (c *Ctx) bboxRulesSSA(pkg, typ, method string, pdf bool) {
 	if pdf {
 		c.check(matrixOK, "Q-BBOX", name, "every end point is mapped through FontMatrix·Scale(1000,1000) before it is compared", fn.Pos(), "Mul(Scale(1000,1000)) and Apply per point", "the PDF bounding box does not transform each end point with FontMatrix × 1000 before taking minima and maxima")
 		// unknown glyph → zero rectangle: no store to the result before the return
-		ev := &ssaEval{c: c, bind: map[ssa.Value]sv{}, mem: map[string]sv{}}
-		ev.call = func(call ssa.CallInstruction, args []sv) (sv, bool) {
-			if call == nil && len(args) > 0 && args[0].s == "lookup" {
-				return sv{k: svTuple, tup: []sv{sv{k: svNil}, boolV(false)}}, true
-			}
-			return sv{}, false
-		}
-		ev.load = func(ld *ssa.UnOp, addr sv) (sv, bool) { return symV("v:" + addr.s), true }
+		// The font is taken from two worlds: one where the glyph map answers no lookup at all, and
+		// one where the asked name alone is missing and every other key (".notdef", say) is a glyph
+		// with an outline: what other glyphs the font holds must not matter for a missing name.
 		var args []sv
 		for i := range fn.Params {
 			args = append(args, sv{k: svAddr, s: fmt.Sprintf("param%d", i)})
 		}
-		ret := ev.runFunc(fn, args)
-		stores := 0
-		for _, ef := range ev.effects {
-			if ef.what == "store" && ef.args[0].k != svNil && !strings.Contains(ef.args[0].String(), "0") {
-				stores++
+		var missing []string
+		for _, othersPresent := range []bool{false, true} {
+			ev := &ssaEval{c: c, bind: map[ssa.Value]sv{}, mem: map[string]sv{}}
+			ev.call = func(call ssa.CallInstruction, args []sv) (sv, bool) {
+				if call == nil && len(args) > 0 && args[0].s == "lookup" {
+					if othersPresent && len(args) == 3 && args[2].known() && !isParamName(args[2], fn) {
+						return sv{k: svTuple, tup: []sv{sv{k: svAddr, s: "otherglyph"}, boolV(true)}}, true
+					}
+					return sv{k: svTuple, tup: []sv{sv{k: svNil}, boolV(false)}}, true
+				}
+				return sv{}, false
+			}
+			ev.load = func(ld *ssa.UnOp, addr sv) (sv, bool) { return symV("v:" + addr.s), true }
+			ret := ev.runFunc(fn, args)
+			stores := 0
+			for _, ef := range ev.effects {
+				if ef.what == "store" && ef.args[0].k != svNil && !strings.Contains(ef.args[0].String(), "0") {
+					stores++
+				}
+			}
+			if ret == nil || stores != 0 {
+				if othersPresent {
+					missing = append(missing, "a missing glyph does not yield the zero rectangle when the font holds other glyphs: the result depends on a glyph looked up under another key than the name asked for")
+				} else {
+					missing = append(missing, "a missing glyph does not yield the zero rectangle")
+				}
 			}
 		}
-		c.check(ret != nil && stores == 0, "Q-BBOX", name, "unknown glyph → zero rectangle", fn.Pos(), "returns before anything is stored into the result", "a missing glyph does not yield the zero rectangle")
+		c.check(len(missing) == 0, "Q-BBOX", name, "unknown glyph → zero rectangle", fn.Pos(), "returns before anything is stored into the result, whatever other glyphs the font holds", strings.Join(missing, "; "))
 	}
 }
 
